@@ -593,14 +593,15 @@ def do_lineprefix(s, prefix):
      .. versionadded:: 2.11
         Add block auto-indent feature
     """
-    newline = u'\n'
+    joiner = u''
 
     if isinstance(s, Markup):
         prefix = Markup(prefix)
-        newline = Markup(newline)
+        joiner = Markup(joiner)
 
-    lines = soft_unicode(s).splitlines()
-    rv = newline.join(prefix + line if line else line for line in lines)
+    # every line keeps its own terminator (also the last one); a line is empty when it consists of a terminator only
+    lines = soft_unicode(s).splitlines(True)
+    rv = joiner.join(prefix + line if line.splitlines()[0] else line for line in lines)
 
     return rv
 
